@@ -39,11 +39,11 @@ ASSUMPTIONS = ['indentwidth is an integer (0-8 in the monitor domain); programs 
                'interior lines of multi-line block comments and long strings are token content, not layout: re-indentations leave them alone',
                'blank lines before the first line of the file are not "separating lines" (the output may start with up to two)']
 CLAIM = dict(
-    text=("Twelve theorems in Properties/C10.v (Coq, closed under the global context) about fmt_run, the model of the 14-step re.sub "
+    text=("Fourteen theorems in Properties/C10.v (Coq, closed under the global context) about fmt_run, the model of the 15-step re.sub "
           "pipeline of LuaFormatterWriter._get_code_for_spaces, for white-space/comment runs of EVERY length, every indent width and "
           "depth, at the start / middle / end of the file: C10_run_canonical_form (exact line-by-line form of the output), "
           "C10_run_depends_on_norm (runs equal modulo blanks at line edges are formatted identically: re-indentation invariance "
-          "of a run), C10_run_indent (the token after the run sits at exactly indentwidth x depth spaces), "
+          "of a run; C10_run_depends_on_norm_end: at the end of the file also modulo the blanks that end the last line), C10_run_indent (the token after the run sits at exactly indentwidth x depth spaces), "
           "C10_run_no_trailing_blank, C10_run_blank_lines (never three line feeds in a row), C10_run_end_of_file, "
           "C10_run_keeps_comment_text (only white space moves), C10_run_idempotent (formatting a formatted run changes "
           "nothing); and four theorems about the whole output as a list of writer chunks (C10_indent_partial, C10_first_line_partial, "
@@ -57,9 +57,10 @@ CLAIM = dict(
     note=("PARTIAL: the whole-program clauses (indentation = width x syntactic depth, re-indentation invariance and idempotence "
           "of whole programs) are OBSERVED by the extracted monitor on real output, not proved: they need the model of the "
           "LuaASTEchoWriter walk (worker parser): that luafmt's output is a separated chunk list whose indents equal the syntactic "
-          "depth; given that, C10_indent_partial / C10_shape_partial / C10_reindent_partial give the clauses. Two genuine "
+          "depth; given that, C10_indent_partial / C10_shape_partial / C10_reindent_partial give the clauses. Three genuine "
           "defects found by this check were fixed in picotool (fix: commits, findings/known_C10.json): white-space-only line / "
-          "non-idempotence after an empty line inside a block; `//` comment lines kept their input indentation. Trusted: Coq "
+          "non-idempotence after an empty line inside a block; `//` comment lines kept their input indentation; a file without final "
+          "newline got one only if blanks followed its last token. Trusted: Coq "
           "kernel+VM, the hand-written regex scanners (pinned to the regenerated sources; compared exhaustively with Python re on "
           "short runs), ExtrOcamlBasic extraction, OCaml glue, the reference reader Spec/FmtShape.v, the program/layout generator."),
     technique='Coq proof about hand-written regex scanners pinned to regenerated sources + extracted-model correspondence + extracted monitor',
@@ -310,6 +311,10 @@ def corpus_cases():
         P(0, b'repeat\nx=1\nuntil x\n', b'  repeat\n    x=1\n  until x\n', note='width 0'),
         P(2, b'x=[[a  \n\n\n  b]]\ny=1\n', b'  x=[[a  \n\n\n  b]]  \n   y=1\n', note='long string content'),
         P(2, b'if (a) x=1 else y=2\nz=3\n', b'   if (a) x=1 else y=2  \n z=3\n', note='short if'),
+        # third fix: a file without a final newline; blanks after the last token / comment
+        P(2, b'x=1\n-- c', b'x=1\n-- c  ', b'  x=1 \n\t-- c \t', note='no final newline'),
+        P(4, b'do\nx=1\nend --[[c]]', b'do\n  x=1\nend --[[c]]   ', note='no final newline'),
+        P(2, b'x=1', b'x=1  ', note='no final newline (needs the S16 fix; else outside)'),
     ]
 
 
